@@ -6,9 +6,10 @@ Open Scope Z_scope.
 
 (* ------------------------------------------------------------ tactics *)
 Ltac projs :=
-  cbn [chain seen pend sub pc cur curh current scanning retryq armed w cfg outq recvd told gf
-       set_chain set_seen set_pend set_sub set_pc set_cur set_current set_scanning
-       set_retryq set_armed set_w set_cfg set_out set_told set_gf
+  cbn [chain seen pend sub iscur quitf pc cur curh current scanning retryq armed w wq wrest cfg
+       outq recvd told gf
+       set_chain set_seen set_pend set_sub set_iscur set_quitf set_pc set_cur set_current set_scanning
+       set_retryq set_armed set_w set_wq set_wrest set_cfg set_out set_told set_gf
        flag_nf flag_coll g_nf g_coll emit_conn emit_disc advance scan_latch
        fst snd] in *.
 
@@ -51,6 +52,35 @@ Proof. intros; unfold success, retry_loop, hbc, fail_other, goto_top, recv_updat
 Lemma retry_later_env : forall h c s, env_eq s (retry_later h c s).
 Proof. intros; unfold retry_later, goto_top, recv_update, settle, env_eq; blast; auto. Qed.
 
+Lemma enter_wait_env : forall ph s, env_eq s (enter_wait ph s).
+Proof. intros; unfold enter_wait, env_eq; blast; auto. Qed.
+Lemma apply_q_env : forall ph q s, env_eq s (apply_q ph q s).
+Proof.
+  induction q as [|u r IH]; intros s; cbn [apply_q].
+  - unfold enter_wait, env_eq; blast; auto.
+  - destruct (_ || _).
+    + destruct (IH (set_wrest r (set_w (add_update u (w s)) s))) as (A & B & C).
+      unfold env_eq. rewrite A, B, C. projs. auto.
+    + unfold env_eq; projs; auto.
+Qed.
+Lemma recv_wait_env : forall ph u s, env_eq s (recv_wait ph u s).
+Proof.
+  intros. unfold recv_wait.
+  destruct (apply_q_env ph (wq s ++ [u]) (set_wq (wq s ++ [u]) (wq s ++ [u]) (set_out (outq s) true (set_pend None s)))) as (A & B & C).
+  unfold env_eq. rewrite A, B, C. projs. auto.
+Qed.
+Lemma wait_top_env : forall ph s, env_eq s (wait_top ph s).
+Proof. intros. unfold wait_top. destruct (pend s); [apply recv_wait_env | apply enter_wait_env]. Qed.
+Lemma wait_settle_env : forall s, env_eq s (wait_settle s).
+Proof. intros. unfold wait_settle. destruct (pc s); try apply env_eq_refl. apply wait_top_env. Qed.
+Lemma wait_exit_env : forall ph s, env_eq s (wait_exit ph s).
+Proof.
+  intros. unfold wait_exit. destruct ph.
+  - match goal with |- env_eq _ (goto_top ?x) => destruct (goto_top_env x) as (A & B & C) end.
+    unfold env_eq. rewrite A, B, C. projs. auto.
+  - unfold env_eq; projs; auto.
+Qed.
+
 (* the subscription queue is left alone by the helpers *)
 Lemma goto_top_sub : forall s, sub (goto_top s) = sub s.
 Proof. intros; unfold goto_top, recv_update, settle; blast; auto. Qed.
@@ -66,6 +96,21 @@ Lemma retry_later_sub : forall h c s, sub (retry_later h c s) = sub s.
 Proof. intros; unfold retry_later, goto_top, recv_update, settle; blast; auto. Qed.
 Lemma fail_other_sub : forall s, sub (fail_other s) = sub s.
 Proof. intros; unfold fail_other, goto_top, recv_update, settle; blast; auto. Qed.
+
+Lemma apply_q_sub : forall ph q s, sub (apply_q ph q s) = sub s.
+Proof.
+  induction q as [|u r IH]; intros s; cbn [apply_q].
+  - unfold enter_wait; blast; auto.
+  - destruct (_ || _); [rewrite IH|]; projs; auto.
+Qed.
+Lemma recv_wait_sub : forall ph u s, sub (recv_wait ph u s) = sub s.
+Proof. intros. unfold recv_wait. rewrite apply_q_sub. projs. reflexivity. Qed.
+Lemma wait_top_sub : forall ph s, sub (wait_top ph s) = sub s.
+Proof. intros. unfold wait_top. destruct (pend s); [apply recv_wait_sub | unfold enter_wait; projs; reflexivity]. Qed.
+Lemma wait_settle_sub : forall s, sub (wait_settle s) = sub s.
+Proof. intros. unfold wait_settle. destruct (pc s); try reflexivity. apply wait_top_sub. Qed.
+Lemma wait_exit_sub : forall ph s, sub (wait_exit ph s) = None.
+Proof. intros. unfold wait_exit. destruct ph; [rewrite goto_top_sub|]; projs; reflexivity. Qed.
 
 (* the ghost flags are left alone by the helpers *)
 Lemma goto_top_gf : forall s, gf (goto_top s) = gf s.
@@ -83,41 +128,98 @@ Proof. intros; unfold retry_later, goto_top, recv_update, settle; blast; auto. Q
 Lemma fail_other_gf : forall s, gf (fail_other s) = gf s.
 Proof. intros; unfold fail_other, goto_top, recv_update, settle; blast; auto. Qed.
 
+Lemma apply_q_gf : forall ph q s, gf (apply_q ph q s) = gf s.
+Proof.
+  induction q as [|u r IH]; intros s; cbn [apply_q].
+  - unfold enter_wait; blast; auto.
+  - destruct (_ || _); [rewrite IH|]; projs; auto.
+Qed.
+Lemma recv_wait_gf : forall ph u s, gf (recv_wait ph u s) = gf s.
+Proof. intros. unfold recv_wait. rewrite apply_q_gf. projs. reflexivity. Qed.
+Lemma wait_top_gf : forall ph s, gf (wait_top ph s) = gf s.
+Proof. intros. unfold wait_top. destruct (pend s); [apply recv_wait_gf | unfold enter_wait; projs; reflexivity]. Qed.
+Lemma wait_settle_gf : forall s, gf (wait_settle s) = gf s.
+Proof. intros. unfold wait_settle. destruct (pc s); try reflexivity. apply wait_top_gf. Qed.
+Lemma wait_exit_gf : forall ph s, gf (wait_exit ph s) = gf s.
+Proof. intros. unfold wait_exit. destruct ph; [rewrite goto_top_gf|]; projs; reflexivity. Qed.
+
+(* the loop cursor of waitForBlocks is left alone by the helpers of the main loop *)
+Lemma goto_top_wrest : forall s, wrest (goto_top s) = wrest s.
+Proof. intros; unfold goto_top, recv_update, settle; blast; auto. Qed.
+Lemma after_drain_wrest : forall s, wrest (after_drain s) = wrest s.
+Proof. intros; unfold after_drain, recv_update, settle; blast; auto. Qed.
+Lemma hbc_wrest : forall h c s, wrest (hbc h c s) = wrest s.
+Proof. intros; unfold hbc, fail_other, goto_top, recv_update, settle; blast; auto. Qed.
+Lemma retry_loop_wrest : forall s, wrest (retry_loop s) = wrest s.
+Proof. intros; unfold retry_loop, hbc, fail_other, goto_top, recv_update, settle; blast; auto. Qed.
+Lemma success_wrest : forall c s, wrest (success c s) = wrest s.
+Proof. intros; unfold success, retry_loop, hbc, fail_other, goto_top, recv_update, settle; blast; auto. Qed.
+Lemma retry_later_wrest : forall h c s, wrest (retry_later h c s) = wrest s.
+Proof. intros; unfold retry_later, goto_top, recv_update, settle; blast; auto. Qed.
+Lemma fail_other_wrest : forall s, wrest (fail_other s) = wrest s.
+Proof. intros; unfold fail_other, goto_top, recv_update, settle; blast; auto. Qed.
+Lemma recv_update_wrest : forall u c s, wrest (recv_update u c s) = wrest s.
+Proof. intros; unfold recv_update, settle; blast; auto. Qed.
+
 Lemma goto_top_chain : forall s, chain (goto_top s) = chain s.
 Proof. intros; apply goto_top_env. Qed.
 Lemma goto_top_seen : forall s, seen (goto_top s) = seen s.
 Proof. intros; apply goto_top_env. Qed.
-#[export] Hint Rewrite goto_top_chain goto_top_seen goto_top_sub goto_top_gf : frame.
+#[export] Hint Rewrite goto_top_chain goto_top_seen goto_top_sub goto_top_gf goto_top_wrest : frame.
 Lemma after_drain_chain : forall s, chain (after_drain s) = chain s.
 Proof. intros; apply after_drain_env. Qed.
 Lemma after_drain_seen : forall s, seen (after_drain s) = seen s.
 Proof. intros; apply after_drain_env. Qed.
-#[export] Hint Rewrite after_drain_chain after_drain_seen after_drain_sub after_drain_gf : frame.
+#[export] Hint Rewrite after_drain_chain after_drain_seen after_drain_sub after_drain_gf after_drain_wrest : frame.
 Lemma fail_other_chain : forall s, chain (fail_other s) = chain s.
 Proof. intros; apply fail_other_env. Qed.
 Lemma fail_other_seen : forall s, seen (fail_other s) = seen s.
 Proof. intros; apply fail_other_env. Qed.
-#[export] Hint Rewrite fail_other_chain fail_other_seen fail_other_sub fail_other_gf : frame.
+#[export] Hint Rewrite fail_other_chain fail_other_seen fail_other_sub fail_other_gf fail_other_wrest : frame.
 Lemma hbc_chain : forall h c s, chain (hbc h c s) = chain s.
 Proof. intros; apply hbc_env. Qed.
 Lemma hbc_seen : forall h c s, seen (hbc h c s) = seen s.
 Proof. intros; apply hbc_env. Qed.
-#[export] Hint Rewrite hbc_chain hbc_seen hbc_sub hbc_gf : frame.
+#[export] Hint Rewrite hbc_chain hbc_seen hbc_sub hbc_gf hbc_wrest : frame.
 Lemma retry_loop_chain : forall s, chain (retry_loop s) = chain s.
 Proof. intros; apply retry_loop_env. Qed.
 Lemma retry_loop_seen : forall s, seen (retry_loop s) = seen s.
 Proof. intros; apply retry_loop_env. Qed.
-#[export] Hint Rewrite retry_loop_chain retry_loop_seen retry_loop_sub retry_loop_gf : frame.
+#[export] Hint Rewrite retry_loop_chain retry_loop_seen retry_loop_sub retry_loop_gf retry_loop_wrest : frame.
 Lemma success_chain : forall c s, chain (success c s) = chain s.
 Proof. intros; apply success_env. Qed.
 Lemma success_seen : forall c s, seen (success c s) = seen s.
 Proof. intros; apply success_env. Qed.
-#[export] Hint Rewrite success_chain success_seen success_sub success_gf : frame.
+#[export] Hint Rewrite success_chain success_seen success_sub success_gf success_wrest : frame.
 Lemma retry_later_chain : forall h c s, chain (retry_later h c s) = chain s.
 Proof. intros; apply retry_later_env. Qed.
 Lemma retry_later_seen : forall h c s, seen (retry_later h c s) = seen s.
 Proof. intros; apply retry_later_env. Qed.
-#[export] Hint Rewrite retry_later_chain retry_later_seen retry_later_sub retry_later_gf : frame.
+#[export] Hint Rewrite retry_later_chain retry_later_seen retry_later_sub retry_later_gf retry_later_wrest : frame.
+Lemma wait_settle_chain : forall s, chain (wait_settle s) = chain s.
+Proof. intros; apply wait_settle_env. Qed.
+Lemma wait_settle_seen : forall s, seen (wait_settle s) = seen s.
+Proof. intros; apply wait_settle_env. Qed.
+Lemma apply_q_chain : forall ph q s, chain (apply_q ph q s) = chain s.
+Proof. intros; apply apply_q_env. Qed.
+Lemma apply_q_seen : forall ph q s, seen (apply_q ph q s) = seen s.
+Proof. intros; apply apply_q_env. Qed.
+Lemma wait_top_chain : forall ph s, chain (wait_top ph s) = chain s.
+Proof. intros; apply wait_top_env. Qed.
+Lemma wait_top_seen : forall ph s, seen (wait_top ph s) = seen s.
+Proof. intros; apply wait_top_env. Qed.
+Lemma wait_exit_chain : forall ph s, chain (wait_exit ph s) = chain s.
+Proof. intros; apply wait_exit_env. Qed.
+Lemma wait_exit_seen : forall ph s, seen (wait_exit ph s) = seen s.
+Proof. intros; apply wait_exit_env. Qed.
+Lemma recv_wait_chain : forall ph u s, chain (recv_wait ph u s) = chain s.
+Proof. intros; apply recv_wait_env. Qed.
+Lemma recv_wait_seen : forall ph u s, seen (recv_wait ph u s) = seen s.
+Proof. intros; apply recv_wait_env. Qed.
+#[export] Hint Rewrite wait_settle_chain wait_settle_seen wait_settle_sub wait_settle_gf
+  apply_q_chain apply_q_seen apply_q_sub apply_q_gf wait_top_chain wait_top_seen wait_top_sub wait_top_gf
+  wait_exit_chain wait_exit_seen wait_exit_sub wait_exit_gf
+  recv_wait_chain recv_wait_seen recv_wait_sub recv_wait_gf : frame.
 
 (* ------------------------------------------------------------ the walk *)
 Lemma walk_from_app : forall a t c,
@@ -191,7 +293,7 @@ Definition pc_inv (s : state) : Prop :=
   | PFilC | PBlkC => curh s = snd (told s) + 1 /\ hprev (cur s) = fst (told s)
   | PRew r _ => told s = (hprev (cur s), curh s - 1) /\ 0 < r < curh s
   | PBack => tcur s /\ 0 < curh s
-  | PDone | PDead => True
+  | PDone | PDead | PExit => True
   | _ => tcur s
   end.
 
@@ -271,7 +373,7 @@ Lemma settle_ok : forall t0 s, Mid t0 s -> tcur s -> Post t0 (settle s).
 Proof.
   intros t0 s M T. unfold settle. split.
   - mid_tac M.
-  - unfold pc_inv, tcur in *; projs. destruct (current s); exact T.
+  - unfold pc_inv, tcur in *; projs. destruct (current s); [destruct (quitf s)|]; auto.
 Qed.
 
 Lemma recv_update_ok : forall t0 u c s, Mid t0 s -> tcur s -> Post t0 (recv_update u c s).
@@ -340,6 +442,50 @@ Proof.
   - mid_tac M.
 Qed.
 
+(* ------------------------------------------------------ waitForBlocks *)
+Lemma enter_wait_ok : forall t0 ph s, Mid t0 s -> tcur s -> Post t0 (enter_wait ph s).
+Proof.
+  intros t0 ph s M T. unfold enter_wait. split.
+  - mid_tac M.
+  - unfold pc_inv, tcur in *; projs. destruct (quitf s); auto.
+Qed.
+
+Lemma apply_q_ok : forall t0 ph q s, Mid t0 s -> tcur s -> Post t0 (apply_q ph q s).
+Proof.
+  induction q as [|u r IH]; intros s M T; cbn [apply_q].
+  - apply enter_wait_ok; [mid_tac M | exact T].
+  - projs. destruct ((urewind u <=? 0) || (curh s <=? urewind u)) eqn:E.
+    + apply IH; [mid_tac M | exact T].
+    + split.
+      * destruct M as [A B C D]; split; projs; auto. apply walk_disc; auto.
+      * unfold pc_inv; projs. split; [reflexivity | lia].
+Qed.
+
+Lemma recv_wait_ok : forall t0 ph u s, Mid t0 s -> tcur s -> Post t0 (recv_wait ph u s).
+Proof.
+  intros t0 ph u s M T. unfold recv_wait. apply apply_q_ok; [mid_tac M | exact T].
+Qed.
+
+Lemma wait_top_ok : forall t0 ph s, Mid t0 s -> tcur s -> Post t0 (wait_top ph s).
+Proof.
+  intros t0 ph s M T. unfold wait_top.
+  destruct (pend s); [apply recv_wait_ok | apply enter_wait_ok]; auto.
+Qed.
+
+Lemma wait_settle_ok : forall t0 s, Post t0 s -> Post t0 (wait_settle s).
+Proof.
+  intros t0 s P. unfold wait_settle. destruct (pc s) eqn:E; try exact P.
+  apply wait_top_ok; [apply P|]. pose proof (p_pc _ _ P) as X. unfold pc_inv in X.
+  rewrite E in X. exact X.
+Qed.
+
+Lemma wait_exit_ok : forall t0 ph s, Mid t0 s -> tcur s -> Post t0 (wait_exit ph s).
+Proof.
+  intros t0 ph s M T. unfold wait_exit. destruct ph.
+  - apply goto_top_ok; [mid_tac M | unfold tcur in *; projs; exact T].
+  - split; [mid_tac M | unfold pc_inv, tcur in *; projs; exact T].
+Qed.
+
 (* --------------------------------------------- the pending call returns *)
 Section WithFilter.
 (* every filter oracle: the walk does not depend on what the filters say *)
@@ -356,9 +502,11 @@ Qed.
 
 Lemma do_call_sub : forall r s,
   sub (do_call r s) = sub s \/ sub (do_call r s) = None \/
-  (exists q, backlog s (curh s) = Some q /\ sub (do_call r s) = Some q).
+  (exists k q, backlog s k = Some q /\ sub (do_call r s) = Some q).
 Proof.
   intros r s. unfold do_call. blast; autorewrite with frame; projs; eauto.
+  all: try (right; right; eauto; fail).
+  all: try (right; left; reflexivity).
 Qed.
 
 Lemma by_height_some : forall k l h, by_height k l = Some h -> In h l /\ hh h = k.
@@ -502,8 +650,19 @@ Proof.
     + destruct c.
       * apply goto_top_ok; [mid_tac M1 | exact T1].
       * apply after_drain_ok; assumption.
+      * apply wait_settle_ok. apply apply_q_ok; assumption.
   - (* PDone *) split; [exact M | unfold pc_inv; rewrite Epc; exact I].
   - (* PDead *) split; [exact M | unfold pc_inv; rewrite Epc; exact I].
+  - (* PExit *) split; [exact M | unfold pc_inv; rewrite Epc; exact I].
+  - (* PWBest *)
+    destruct (chain s) as [|t r0]; [post_dead|].
+    destruct (wpred ph (hid t) (hh t) s).
+    + apply wait_exit_ok; auto.
+    + split; [mid_tac M | unfold pc_inv; projs; exact Hpc].
+  - (* PWSub *)
+    destruct (backlog s k) as [q|]; [|post_dead].
+    apply wait_top_ok; [mid_tac M | kprojs; exact Hpc].
+  - (* PWait *) split; [exact M | unfold pc_inv; rewrite Epc; exact Hpc].
 Qed.
 
 (* ------------------------------------------- a notification is received *)
@@ -517,9 +676,12 @@ Lemma do_ntfn_env : forall s, env_eq s (do_ntfn s).
 Proof. intros s. unfold env_eq, do_ntfn. blast; autorewrite with frame; projs; auto. Qed.
 
 Lemma do_ntfn_sub : forall s,
-  sub (do_ntfn s) = sub s \/ exists n q, sub s = Some (n :: q) /\ sub (do_ntfn s) = Some q.
+  sub (do_ntfn s) = sub s \/ sub (do_ntfn s) = None \/
+  exists n q, sub s = Some (n :: q) /\ sub (do_ntfn s) = Some q.
 Proof.
   intros s. unfold do_ntfn. blast; autorewrite with frame; projs; eauto.
+  all: try (right; right; eauto; fail).
+  all: try (right; left; reflexivity).
 Qed.
 
 Lemma do_ntfn_post : forall s,
@@ -527,6 +689,15 @@ Lemma do_ntfn_post : forall s,
 Proof.
   intros s He Hs M Hpc. unfold do_ntfn.
   destruct (pc s) eqn:Epc; try (split; [exact M | exact Hpc]).
+  2:{ (* the select of waitForBlocks *)
+    destruct (sub s) as [[|n q]|] eqn:Es; try (split; [exact M | exact Hpc]).
+    unfold pc_inv in Hpc; rewrite Epc in Hpc.
+    assert (M1 : Mid (told s) (set_sub (Some q) s)) by (mid_tac M).
+    destruct n as [h|h t].
+    - destruct (wpred ph (hid h) (hh h) (set_sub (Some q) s)).
+      + apply wait_exit_ok; auto.
+      + apply apply_q_ok; [mid_tac M1 | exact Hpc].
+    - split; [exact M1 | unfold pc_inv; projs; rewrite Epc; exact Hpc]. }
   destruct (sub s) as [[|n q]|] eqn:Es; try (split; [exact M | exact Hpc]).
   unfold pc_inv in Hpc; rewrite Epc in Hpc.
   pose proof (Hs _ n Es (or_introl eq_refl)) as Hn.
@@ -576,20 +747,14 @@ Proof.
   assert (G : forall h k, In h (chain s) -> hh h = k ->
               Post (told (start_at c h k s)) (start_at c h k s) /\ outq (start_at c h k s) = [] /\
               (pc (start_at c h k s) = PIdle -> start_at c h k s = s)).
-  { intros h k Hin Hh. unfold start_at.
-    match goal with |- context [goto_top ?x] => set (s1 := x) end.
-    assert (Hp1 : pend s1 = None) by (subst s1; projs; exact Hp).
-    assert (Ho1 : outq s1 = []) by (subst s1; projs; exact Ho).
-    assert (Tt : told (goto_top s1) = told s1).
-    { unfold goto_top, settle. rewrite Hp1. blast; auto. }
-    assert (T1 : tcur s1) by (subst s1; unfold tcur; projs; reflexivity).
-    split; [|split].
-    - rewrite Tt. apply goto_top_ok; [|exact T1].
-      split; subst s1; kprojs; auto.
-      + apply (e_chain _ He); exact Hin.
-      + rewrite Ho. reflexivity.
-    - rewrite goto_top_out_nil; auto.
-    - intros Hpc'. exfalso. revert Hpc'. unfold goto_top, settle. rewrite Hp1. blast; discriminate. }
+  { intros h k Hin Hh. unfold start_at. projs. split; [|split].
+    - split.
+      + split; kprojs; auto.
+        * apply (e_chain _ He); exact Hin.
+        * rewrite Ho. reflexivity.
+      + unfold pc_inv, tcur; projs. reflexivity.
+    - exact Ho.
+    - intros X; discriminate. }
   destruct (by_height (cstart c) (chain s)) as [h|] eqn:E1.
   - apply by_height_some in E1. destruct E1. apply G; auto.
   - destruct (by_height 0 (chain s)) as [g|] eqn:E2.
@@ -614,6 +779,22 @@ Proof. intros; destruct c; cbn [success]; [apply goto_top_ni | apply retry_loop_
 Lemma retry_later_ni : forall h c s, pc (retry_later h c s) <> PIdle.
 Proof. intros; destruct c; cbn [retry_later]; apply goto_top_ni. Qed.
 
+Lemma enter_wait_ni : forall ph s, pc (enter_wait ph s) <> PIdle.
+Proof. unfold enter_wait; noidle. Qed.
+Lemma apply_q_ni : forall ph q s, pc (apply_q ph q s) <> PIdle.
+Proof.
+  induction q as [|u r IH]; intros s; cbn [apply_q]; [apply enter_wait_ni|].
+  destruct (_ || _); [apply IH | projs; discriminate].
+Qed.
+Lemma recv_wait_ni : forall ph u s, pc (recv_wait ph u s) <> PIdle.
+Proof. intros; unfold recv_wait; apply apply_q_ni. Qed.
+Lemma wait_top_ni : forall ph s, pc (wait_top ph s) <> PIdle.
+Proof. intros; unfold wait_top; destruct (pend s); [apply recv_wait_ni | apply enter_wait_ni]. Qed.
+Lemma wait_settle_ni : forall s, pc s <> PIdle -> pc (wait_settle s) <> PIdle.
+Proof. intros s H; unfold wait_settle; destruct (pc s) eqn:E; try (rewrite E; exact H). apply wait_top_ni. Qed.
+Lemma wait_exit_ni : forall ph s, pc (wait_exit ph s) <> PIdle.
+Proof. intros; unfold wait_exit; destruct ph; [apply goto_top_ni | projs; discriminate]. Qed.
+
 Lemma do_call_idle : forall r s, pc (do_call r s) = PIdle -> do_call r s = s.
 Proof.
   intros r s. unfold do_call.
@@ -621,7 +802,8 @@ Proof.
     | |- context [match ?x with _ => _ end] => destruct x eqn:?
     end); projs; try discriminate; try reflexivity; intros H; exfalso; revert H;
   first [apply goto_top_ni | apply after_drain_ni | apply fail_other_ni | apply success_ni
-        | apply retry_later_ni ].
+        | apply retry_later_ni | apply wait_exit_ni | apply wait_top_ni
+        | apply wait_settle_ni; apply apply_q_ni ].
 Qed.
 
 Lemma do_ntfn_idle : forall s, pc (do_ntfn s) = PIdle -> do_ntfn s = s.
@@ -630,7 +812,7 @@ Proof.
   repeat (projs; match goal with
     | |- context [match ?x with _ => _ end] => destruct x eqn:?
     end); projs; try discriminate; try reflexivity; intros H; exfalso; revert H;
-  first [apply goto_top_ni | apply hbc_ni ].
+  first [apply goto_top_ni | apply hbc_ni | apply wait_exit_ni | apply apply_q_ni ].
 Qed.
 
 (* ------------------------------------------------------ the invariant *)
